@@ -129,9 +129,6 @@ private:
         // presence criteria.
         double competency = 0;
         for (const auto& table_row : partial_competency_table_) {
-            // probably faster if we just wait for the iteration over the whole thing
-            if (!table_row.presence_absence[host_index])
-                continue;
             if (presence_absence.size() != table_row.presence_absence.size()) {
                 throw std::invalid_argument(
                     "Number of hosts in the environment is not the same as "
@@ -139,6 +136,9 @@ private:
                     + std::to_string(presence_absence.size())
                     + " != " + std::to_string(table_row.presence_absence.size()) + ")");
             }
+            // probably faster if we just wait for the iteration over the whole thing
+            if (!table_row.presence_absence[host_index])
+                continue;
             // Pick always the highest competency. Don't test row which has lower one.
             if (table_row.competency <= competency)
                 continue;
